@@ -8,6 +8,7 @@ import (
 	"go/types"
 	"math"
 	"math/big"
+	"math/bits"
 	"sort"
 	"strings"
 
@@ -284,6 +285,7 @@ func (in *Interp) concretize(t *Term, what string) uint64 {
 	cap := in.cfg.ConcretizeCap
 	var vals []uint64
 	in.sol.Push()
+	wv := in.wrapVar(t)
 	for {
 		r := in.sol.Check()
 		if r == Unknown {
@@ -293,7 +295,7 @@ func (in *Interp) concretize(t *Term, what string) uint64 {
 		if r == Unsat {
 			break
 		}
-		m, err := in.sol.GetValues([]*Term{in.wrapVar(t)})
+		m, err := in.sol.GetValues([]*Term{wv})
 		if err != nil {
 			in.sol.Pop()
 			panic(pathEnd{kind: "budget", msg: "get-value failed: " + err.Error()})
@@ -387,10 +389,15 @@ func (in *Interp) reportViolation(label, msg string, negCond *Term) {
 	}
 	r := in.sol.Check()
 	var model map[string]string
+	ok := false
 	if r == Sat {
-		model, _ = in.modelStrings()
+		model, ok = in.modelStrings()
 	}
 	in.sol.Pop()
+	if !ok {
+		in.res.noteInconclusive("violation of " + label + " suspected but no model could be obtained (" + r.String() + ")")
+		return
+	}
 	v := Violation{Label: label, Msg: msg, Model: model, Covers: append([]string{}, in.pathCovers...)}
 	in.res.addViolation(v)
 	in.pathViolations++
@@ -1267,6 +1274,13 @@ func (in *Interp) binop(op token.Token, a, b Value, ta, tb types.Type) Value {
 			}
 			return st.Bin(OpSRem, x, y)
 		}
+		if y.IsConst() && !x.IsConst() && y.w <= 64 {
+			q, r := in.udivConst(x, y.c)
+			if op == token.QUO {
+				return q
+			}
+			return r
+		}
 		if op == token.QUO {
 			return st.Bin(OpUDiv, x, y)
 		}
@@ -1330,6 +1344,32 @@ func (in *Interp) binop(op token.Token, a, b Value, ta, tb types.Type) Value {
 	}
 	in.unsupported("binop " + op.String())
 	return nil
+}
+
+// udivConst encodes x / c and x % c for a constant c without a bit-blasted divider:
+// power of two -> shift/mask; otherwise fresh q, r with the defining axiom x = q*c + r, r < c
+// (computed at double width, so the axiom has exactly one solution for every x).
+func (in *Interp) udivConst(x *Term, c uint64) (*Term, *Term) {
+	st := in.st
+	w := x.w
+	if c&(c-1) == 0 {
+		k := uint64(0)
+		for (uint64(1) << k) != c {
+			k++
+		}
+		return st.Bin(OpLShr, x, st.Const(w, k)), st.Bin(OpAnd, x, st.Const(w, c-1))
+	}
+	q := st.Var(fmt.Sprintf("$divq_%d_%d", x.id, c), w)
+	r := st.Var(fmt.Sprintf("$divr_%d_%d", x.id, c), w)
+	if _, ok := st.axioms[q.id]; !ok {
+		ew := w + bits.Len64(c) + 1
+		cw := st.Const(ew, c)
+		prod := st.Bin(OpAdd, st.Bin(OpMul, st.ZExt(q, ew), cw), st.ZExt(r, ew))
+		ax := st.BAnd(st.Eq(st.ZExt(x, ew), prod), st.Cmp(OpULt, r, st.Const(w, c)))
+		st.axioms[q.id] = ax
+		st.axioms[r.id] = ax
+	}
+	return q, r
 }
 
 func (in *Interp) floatBinop(op token.Token, x, y *Term, t types.Type) Value {
